@@ -613,12 +613,22 @@ func e10ReplaceShape(c *core.Ctx, r *core.Report, p *packages.Package) {
 		r.Fail("E10.replace-shape", key, c.Pos(fd.Pos()), "no `if q != nil` splice block")
 		return
 	}
-	n, seq := core.AlphaSeq(c.Norm(p, fd),
+	n, seq := 0, false
+	// the sum in the remainder's lower bound may be written in either operand order
+	for _, first := range []string{
 		"$r:=&Path{append([]float64{MoveToCmd,$end.X,$end.Y,MoveToCmd},$p.d[$i+cmdLen($cmd):]...)}",
-		"$p.d=$p.d[:$i:",
-		"$p=$p.Join($q)",
-		"$i=len($p.d)",
-		"$p=$p.Join($r)")
+		"$r:=&Path{append([]float64{MoveToCmd,$end.X,$end.Y,MoveToCmd},$p.d[cmdLen($cmd)+$i:]...)}",
+	} {
+		k, ok := core.AlphaSeq(c.Norm(p, fd), first,
+			"$p.d=$p.d[:$i:",
+			"$p=$p.Join($q)",
+			"$i=len($p.d)",
+			"$p=$p.Join($r)")
+		if k > n {
+			n = k
+		}
+		seq = seq || ok
+	}
 	if seq {
 		r.OK("E10.replace-shape", key, c.Pos(blk.Pos()), "save remainder; cut record; Join(q); i = len(p.d); Join(remainder)")
 	} else {
